@@ -816,7 +816,12 @@ where
                     arena,
                     self.nilline_after(expr.span.start() + ByteOffset::from(1)),
                     inner,
-                    trailing_comma(arena),
+                    // `()` has no elements to put a comma after
+                    if elems.is_empty() {
+                        arena.nil()
+                    } else {
+                        trailing_comma(arena)
+                    },
                 ]
                 .group();
 
